@@ -312,10 +312,14 @@ Registry(sb, keys) == (IF sb.front = "" THEN <<>> ELSE <<sb.front>>)
 (* passed; factory = the species keys are opaque names and the charges come from a user-supplied  *)
 (* `substance_factory` (the keys of the form are then FKeys, the factory maps FKeys[i] to a       *)
 (* substance of charge ions[i].z)                                                                 *)
-NoOpts == [warn |-> "default", ukw |-> FALSE, factory |-> FALSE]
+(* twice (second audit, object histories): the SAME argument objects are handed to a second call; *)
+(* the second answer is judged, and - frame property of every form - the call leaves its inputs   *)
+(* unchanged (exp.inputs_unchanged)                                                               *)
+NoOpts == [warn |-> "default", ukw |-> FALSE, factory |-> FALSE, twice |-> FALSE]
 F(form, unit, e, unit2, e2, subs) ==
     [form |-> form, unit |-> unit, exp10 |-> e, unit2 |-> unit2, exp10b |-> e2, subs |-> subs, opts |-> NoOpts]
-FO(f, w, ukw, fac) == [f EXCEPT !.opts = [warn |-> w, ukw |-> ukw, factory |-> fac]]
+FO(f, w, ukw, fac) == [f EXCEPT !.opts = [warn |-> w, ukw |-> ukw, factory |-> fac, twice |-> FALSE]]
+FT(f) == [f EXCEPT !.opts.twice = TRUE]
 FKeys == [i \in 1..Len(ions) |-> "X" \o ToString(i)]
 ListForms == << F("list",   "none",    -12, "none",   -12, NoSubs),
                 F("qarray", "mol/kg",  -12, "mol/kg", -12, NoSubs),
@@ -325,14 +329,22 @@ ListForms == << F("list",   "none",    -12, "none",   -12, NoSubs),
                 F("nparray", "none",   -12, "none",   -12, NoSubs),       \* plain numpy arrays
                 FO(F("list", "none",   -12, "none",   -12, NoSubs), "off", FALSE, FALSE),
                 FO(F("qarray", "mol/kg", -12, "mol/kg", -12, NoSubs), "default", TRUE, FALSE),
-                FO(F("qlist", "mmol/kg", -9, "mmol/kg", -9, NoSubs), "off", TRUE, FALSE) >>
+                FO(F("qlist", "mmol/kg", -9, "mmol/kg", -9, NoSubs), "off", TRUE, FALSE),
+                FO(F("list", "none",   -12, "none",   -12, NoSubs), "on", FALSE, FALSE),      \* warn=True passed
+                FT(F("qarray", "mmol/kg", -9, "mmol/kg", -9, NoSubs)),
+                FT(F("nparray", "none", -12, "none", -12, NoSubs)) >>
 DictForms == << F("dict",   "none",    -12, "none",   -12, NoSubs),
                 F("dict",   "none",    -12, "none",   -12, Subs("str", "rev", "", "")),
                 F("dict",   "none",    -12, "none",   -12, Subs("dict", "rot", "", "He")),
                 F("qdict",  "mol/kg",  -12, "mol/kg", -12, NoSubs),
                 F("qdict",  "umol/kg", -6,  "mmol/kg", -9, Subs("dict", "rev", "", "")),
                 F("qdict",  "mol/kg",  -12, "mol/kg", -12, Subs("str", "rot", "Ar", "")),
-                FO(F("dict", "none",   -12, "none",   -12, NoSubs), "off", FALSE, FALSE) >>
+                FO(F("dict", "none",   -12, "none",   -12, NoSubs), "off", FALSE, FALSE),
+                \* alias keys: the mapping and the registry are keyed by FKeys ("X1", ...), the registry
+                \* holds the real substances of the formulas Keys - keys differ from Substance.name
+                F("dict",   "none",    -12, "none",   -12, Subs("aliasdict", "rev", "", "")),
+                FT(F("qdict", "mmol/kg", -9, "mol/kg", -12, Subs("aliasdict", "rot", "", ""))),
+                FT(F("dict",   "none",    -12, "none",   -12, Subs("dict", "same", "", ""))) >>
 (* mapping forms whose keys are opaque: they work for every ion list (no formula table needed) *)
 FactoryForms == << FO(F("dict",  "none",    -12, "none",   -12, NoSubs), "default", FALSE, TRUE),
                    FO(F("qdict", "mmol/kg", -9,  "mol/kg", -12, Subs("str", "rev", "", "")), "default", FALSE, TRUE) >>
@@ -366,6 +378,7 @@ IonCase ==
                nforms |-> NForms,
                hist |-> hist],
       exp |-> [twiceI_pico |-> TwiceI(ions), warn |-> WarnSpec(ions), warn_off |-> "no", rtol_exp10 |-> IonRtolExp,
+               inputs_unchanged |-> TRUE,
                net_sign |-> NetSign(ions)],
       cls |-> IonClass ]
 
@@ -377,7 +390,7 @@ Arg(unit, n, d) == [unit |-> unit, mul |-> <<n, d>>]
 (* law, C = -0.3 for Davies, b0 = 1 mol/kg) are NOT passed; otherwise they are passed.  With     *)
 (* quantities I0 has no usable default (it must carry the unit of IS).  See OmitSeq.             *)
 LM(mode, be, impl, isu, isn, i0u, au, an, bu) ==
-    [mode |-> mode, backend |-> be, consts |-> FALSE, implicit |-> impl,
+    [mode |-> mode, backend |-> be, consts |-> FALSE, implicit |-> impl, alias |-> FALSE,
      IS |-> Arg(isu, isn, 1), I0 |-> Arg(i0u, 1, 1), a |-> Arg(au, an, 1), B |-> Arg(bu, 1, 1)]
 LawModes ==
     << LM("plain",  "default", FALSE, "none", 1, "none", "none", 1, "none"),
@@ -390,12 +403,14 @@ LawModes ==
        \* coverage audit: symbolic backend (given by name), array-valued ionic strength
        LM("plain",  "sympy",   FALSE, "none", 1, "none", "none", 1, "none"),
        LM("nparray", "default", FALSE, "none", 1, "none", "none", 1, "none"),
-       LM("nparray", "default", FALSE, "mmol/kg", 1000, "mol/kg", "angstrom", 10, "1/nm") >>
+       LM("nparray", "default", FALSE, "mmol/kg", 1000, "mol/kg", "angstrom", 10, "1/nm"),
+       \* second audit: through the deprecated alias module chempy.debye_huckel
+       [LM("units", "default", FALSE, "mol/kg", 1, "mol/kg", "nm", 1, "1/nm") EXCEPT !.alias = TRUE] >>
 (* A, B take `constants` and `units`: every accepted combination (constants object given / not) x  *)
 (* (units object given / not) x (inputs plain / default units / scaled units); without any of the  *)
 (* two objects the inputs are plain numbers, with either of them they are quantities              *)
 ABM(mode, c, uo, impl, tu, tn, td, ru, rn, rd, bu) ==
-    [mode |-> mode, backend |-> "default", consts |-> c, uobj |-> uo, implicit |-> impl,
+    [mode |-> mode, backend |-> "default", consts |-> c, uobj |-> uo, implicit |-> impl, alias |-> FALSE,
      T |-> Arg(tu, tn, td), rho |-> Arg(ru, rn, rd), b0 |-> Arg(bu, 1, 1)]
 ABModes ==
     << ABM("plain",  FALSE, FALSE, TRUE,  "none", 1, 1, "none", 1, 1, "none"),
@@ -415,13 +430,16 @@ ABModes ==
        [ABM("plain", FALSE, FALSE, TRUE, "none", 1, 1, "none", 1, 1, "none") EXCEPT !.backend = "math"],
        [ABM("units", TRUE,  TRUE,  FALSE, "K", 1, 1, "kg/m3", 1, 1, "mol/kg") EXCEPT !.backend = "math"],
        ABM("nparray", FALSE, FALSE, TRUE, "none", 1, 1, "none", 1, 1, "none"),
-       ABM("nparray", TRUE,  TRUE,  FALSE, "K", 1, 1, "g/cm3", 1, 1000, "mol/kg") >>
-PM(mode, be, impl) == [mode |-> mode, backend |-> be, implicit |-> impl]
+       ABM("nparray", TRUE,  TRUE,  FALSE, "K", 1, 1, "g/cm3", 1, 1000, "mol/kg"),
+       [ABM("units",  FALSE, TRUE,  TRUE,  "K", 1, 1, "kg/m3", 1, 1, "mol/kg") EXCEPT !.alias = TRUE] >>
+PM(mode, be, impl) == [mode |-> mode, backend |-> be, implicit |-> impl, alias |-> FALSE]
 ProdModes == << PM("plain", "default", FALSE), PM("plain", "math", FALSE), PM("class", "default", FALSE),
                 PM("plain", "default", TRUE), PM("class", "default", TRUE),
                 \* coverage audit: symbolic backend; one instance of the class called twice (first with
                 \* four times the molalities) - the second answer must not remember the first
-                PM("plain", "sympy", FALSE), PM("classreuse", "default", FALSE) >>
+                PM("plain", "sympy", FALSE), PM("classreuse", "default", FALSE),
+                \* second audit: the deprecated alias module chempy.debye_huckel
+                [PM("plain", "default", TRUE) EXCEPT !.alias = TRUE] >>
 (* documented defaults and the arguments a configuration leaves out *)
 DefaultC(kind) == IF kind \in {"dav", "dap"} THEN <<-3, 10>> ELSE QZero
 If(c, name) == IF c THEN <<name>> ELSE <<>>
